@@ -308,7 +308,8 @@ func C03(r *chk.Run) {
 		r.Phase("compressed-3x2", c03Body("C03", func(x *explore.Ctx) ([][]arrMsg, string) {
 			comp := []string{"zstd", "lz4"}[x.Choose("cfg", 2)]
 			return genArrangement(x, 1, 3, 2, c03Domain[:3], []uint16{1}), comp
-		}), chk.PhaseOpts{})
+		}), chk.PhaseOpts{Share: 0.6})
+		histPhase(r, "C03", 4)
 		return
 	}
 	r.Phase("1-channel-3x3", c03Body("C03", one(3, 3)), chk.PhaseOpts{Share: 0.5})
@@ -317,6 +318,7 @@ func C03(r *chk.Run) {
 	r.Phase("lz4-2x2", c03Body("C03", func(x *explore.Ctx) ([][]arrMsg, string) {
 		return genArrangement(x, 1, 2, 2, c03Domain[:3], []uint16{1}), "lz4"
 	}), chk.PhaseOpts{})
+	histPhase(r, "C03", 3)
 }
 
 // ---------------------------------------------------------------- C04
@@ -552,9 +554,149 @@ func C04(r *chk.Run) {
 	}
 	if r.Thorough() {
 		r.Phase("2x2-full", c04Body(gen(2, 2, c04Domain), true), chk.PhaseOpts{Share: 0.6, SplitLen: 5})
-		r.Phase("3x1", c04Body(gen(3, 1, c04Domain), true), chk.PhaseOpts{SplitLen: 5})
+		r.Phase("3x1", c04Body(gen(3, 1, c04Domain), true), chk.PhaseOpts{SplitLen: 5, Share: 0.7})
+		histPhase(r, "C04", 4)
 		return
 	}
 	r.Phase("2x1", c04Body(gen(2, 1, c04Domain), true), chk.PhaseOpts{Share: 0.3, SplitLen: 4})
-	r.Phase("2x2-times{0,5,max}", c04Body(gen(2, 2, []uint64{0, 5, math.MaxUint64}), false), chk.PhaseOpts{SplitLen: 5})
+	r.Phase("2x2-times{0,5,max}", c04Body(gen(2, 2, []uint64{0, 5, math.MaxUint64}), false), chk.PhaseOpts{SplitLen: 5, Share: 0.8})
+	histPhase(r, "C04", 3)
+}
+
+// ---------------------------------------------------------------- histories on one Reader
+
+// A Reader may be asked for Info and for several index-based iterators in any order. The history
+// phases enumerate every sequence of up to depth operations on ONE Reader and compare each result
+// with the result of the same operation on a fresh Reader (a differential oracle that starts from
+// non-initial states).
+
+type histOp struct {
+	name  string
+	opts  func() []mcap.ReadOpt
+	drain int // messages to take before abandoning the iterator (-1 = all)
+}
+
+var histOps = []histOp{
+	{"Info", nil, 0},
+	{"Messages(file order) all", func() []mcap.ReadOpt { return []mcap.ReadOpt{mcap.InOrder(mcap.FileOrder)} }, -1},
+	{"Messages(log time, topic a) all", func() []mcap.ReadOpt {
+		return []mcap.ReadOpt{mcap.InOrder(mcap.LogTimeOrder), mcap.WithTopics([]string{"a"})}
+	}, -1},
+	{"Messages(log time) all", func() []mcap.ReadOpt { return []mcap.ReadOpt{mcap.InOrder(mcap.LogTimeOrder)} }, -1},
+	{"Messages(reverse, topic b) take 1", func() []mcap.ReadOpt {
+		return []mcap.ReadOpt{mcap.InOrder(mcap.ReverseLogTimeOrder), mcap.WithTopics([]string{"b"})}
+	}, 1},
+	{"Messages(log time, window [5,40)) all", func() []mcap.ReadOpt {
+		return []mcap.ReadOpt{mcap.InOrder(mcap.LogTimeOrder), mcap.AfterNanos(5), mcap.BeforeNanos(40)}
+	}, -1},
+	{"Messages(reverse) take 2", func() []mcap.ReadOpt { return []mcap.ReadOpt{mcap.InOrder(mcap.ReverseLogTimeOrder)} }, 2},
+}
+
+func histFiles() []*arrangement {
+	return []*arrangement{
+		buildArrangement([][]arrMsg{{{ch: 1, t: 10}, {ch: 2, t: 50}}, {{ch: 2, t: 5}, {ch: 1, t: 45}}, {{ch: 3, t: 20}, {ch: 3, t: 30}}, {{ch: 2, t: 60}}}, ""),
+		buildArrangement([][]arrMsg{{{ch: 2, t: 1}}, {{ch: 1, t: 2}, {ch: 1, t: 3}}, {{ch: 2, t: 4}}}, "lz4"),
+		// a file without chunks (hence without chunk indexes): index-based reads fall back to the scan or fail
+		{bytes: logicalContents()[0].encode(&layoutSpec{partition: nil, order: ref.GoGroupOrder, opt: 1<<nOpt - 1})},
+	}
+}
+
+func infoDigest(info *mcap.Info) string {
+	s := fmt.Sprintf("ch=%d sch=%d att=%d meta=%d stats=%+v chunks:", len(info.Channels), len(info.Schemas), len(info.AttachmentIndexes), len(info.MetadataIndexes), info.Statistics)
+	for _, ci := range info.ChunkIndexes {
+		s += fmt.Sprintf(" (%d,%d,%d,%d)", ci.ChunkStartOffset, ci.ChunkLength, ci.MessageStartTime, ci.MessageEndTime)
+	}
+	return s
+}
+
+// runHistOp executes op on rd and renders its result.
+func runHistOp(rd *mcap.Reader, op histOp) (res string) {
+	defer func() {
+		if p := recover(); p != nil {
+			res = "panic: " + gow.PanicSite(p)
+		}
+	}()
+	if op.opts == nil {
+		info, err := rd.Info()
+		if err != nil {
+			return "error: " + err.Error()
+		}
+		return infoDigest(info)
+	}
+	it, err := rd.Messages(op.opts()...)
+	if err != nil {
+		return "error: " + err.Error()
+	}
+	out := ""
+	for n := 0; op.drain < 0 || n < op.drain; n++ {
+		_, c, m, err := it.NextInto(nil)
+		if err != nil {
+			out += " end:" + err.Error()
+			break
+		}
+		out += fmt.Sprintf(" #%d@%d/c%d", m.Sequence, m.LogTime, c.ID)
+	}
+	return out
+}
+
+func histBody(depth int) explore.Body {
+	files := histFiles()
+	fresh := map[string]string{}
+	return func(x *explore.Ctx) *explore.Verdict {
+		fi := x.Choose("op", len(files))
+		n := 1 + x.Choose("op", depth)
+		rd, err := mcap.NewReader(bytes.NewReader(files[fi].bytes))
+		if err != nil {
+			return vio("C04:harness", "NewReader: %v", err)
+		}
+		defer rd.Close()
+		var hist []string
+		scanned := false
+		for i := 0; i < n; i++ {
+			k := x.Choose("op", len(histOps))
+			op := histOps[k]
+			if fi == len(files)-1 && op.opts != nil {
+				// the file without index: Messages falls back to the sequential scan, which by design
+				// continues from the reader's position; only the first Messages of a history is compared
+				if scanned {
+					continue
+				}
+				scanned = true
+			}
+			hist = append(hist, op.name)
+			x.Ops++
+			key := fmt.Sprint(fi, "/", k)
+			want, ok := fresh[key]
+			if !ok {
+				frd, _ := mcap.NewReader(bytes.NewReader(files[fi].bytes))
+				want = runHistOp(frd, op)
+				frd.Close()
+				fresh[key] = want
+			}
+			got := runHistOp(rd, op)
+			if got != want {
+				x.Note = func() any { return map[string]any{"file": fi, "history": hist} }
+				kind := "Messages"
+				if op.opts == nil {
+					kind = "Info"
+				}
+				return vio("HIST:"+kind+"-depends-on-reader-history", "after the history %q on one Reader, %s returns %q; a fresh Reader returns %q (file %d)", hist[:len(hist)-1], op.name, got, want, fi)
+			}
+		}
+		x.Note = func() any { return map[string]any{"file": fi, "history": hist} }
+		x.State = explore.Hash([]byte(fmt.Sprint(fi, hist)))
+		return nil
+	}
+}
+
+// histPhase runs the history exploration for one property; sigPrefix rewrites the signature.
+func histPhase(r *chk.Run, prop string, depth int) {
+	body := histBody(depth)
+	r.Phase(fmt.Sprintf("reader-histories-depth<=%d", depth), func(x *explore.Ctx) *explore.Verdict {
+		v := body(x)
+		if v != nil {
+			v.Sig = prop + v.Sig[4:]
+		}
+		return v
+	}, chk.PhaseOpts{SplitLen: 3})
 }
